@@ -66,18 +66,19 @@ type c04State struct {
 	normaliser          *ssa.Function // raw columns -> six columns
 	normaliserFieldsArg int
 	descFn              *ssa.Function // descriptor -> Schedule
-	parseLits           []*c04T       // SpecSchedule literals reaching Parse's result
+	gcells              map[*ssa.Global]*c04Cell
+	parseLits           []*c04T // SpecSchedule literals reaching Parse's result
 	parseResults        [][]*c04T
 }
 
 func checkC04(c *Ctx) {
 	r, p := c.R, c.P
-	r.Explanation = "Decides structural necessary conditions of C04 on package cron (parser.go, spec.go, constantdelay.go, doc.go). Only exported API names (Parser.Parse, ParseStandard, ParseOption constants, SpecSchedule and its fields, SpecSchedule.Next, ConstantDelaySchedule, Every) and the standard library are used as anchors; every unexported function, type, field, variable and constant is resolved by ROLE through types and dataflow (the field-table type = the struct with two unsigned fields and a name map of which package-level tables exist, min/max told apart by the table contents; the table of field F = the table Parse parses column F with; the column-order and default lists by their types; the normaliser, the column parser and the descriptor function by the types of the calls Parse makes; the bit-set builder by its signature; the star bit = the constant Next masks Dom/Dow with). Values are compared as TERMS in which same-package callees (functions, methods, closures) are inlined and merges become choices, so a test, step or reset is recognised wherever it is written; branch facts include short-circuit booleans evaluated to a value; validation helpers are consulted through their success returns. " +
+	r.Explanation = "Decides structural necessary conditions of C04 on package cron (parser.go, spec.go, constantdelay.go, doc.go). Only exported API names (Parser.Parse, ParseStandard, ParseOption constants, SpecSchedule and its fields, SpecSchedule.Next, ConstantDelaySchedule, Every) and the standard library are used as anchors; every unexported function, type, field, variable and constant is resolved by ROLE through types and dataflow (the field-table type = the struct with two unsigned fields and a name map of which package-level tables exist, min/max told apart by the table contents; the table of field F = the table Parse parses column F with; the column-order and default lists by their types; the normaliser, the column parser and the descriptor function by the types of the calls Parse makes; the bit-set builder by its signature; the star bit = the constant Next masks Dom/Dow with). Values are compared as TERMS in which same-package callees (functions, methods, closures) are inlined and merges become choices, so a test, step or reset is recognised wherever it is written; branch facts include short-circuit booleans evaluated to a value; validation helpers are consulted through their success returns. Calls through function values whose targets are visible in the package (locals, elements of literal slices/arrays/maps, func-typed fields and package-level variables, closure parameters) and through single-implementation interfaces are followed. Where the shape defeats the term view, the code is interpreted abstractly instead: the package initialiser is evaluated to obtain literal tables (arrays of field tables, maps of builder functions) and Parser.Parse is evaluated on a symbolic expression along every branch, with the normaliser, the column parser and the descriptor function kept as symbolic applications — so an accumulator struct with an index, a loop over a table of field tables or a map of constructors give the same pairing as six closure calls. Search loops may live in phase helpers of Next (a carry is then a return whose boolean result Next branches on to restart the search) and their variables in fields of a local struct (the reaching store is followed); the field-table struct may nest/embed its limits. " +
 		"Tables (E6): the table each column is parsed with equals that column's row of the 'Allowed values' table of doc.go (seconds: the range of time.Time.Second) and stays below the star bit; month/weekday names map to the numbering of time.Month/time.Weekday; the column order list names the six fields in expression order and each default lies within its table; an omitted optional column is filled with the default of its own field at its own end; the seven predefined schedules of the descriptor function, folded to constants, equal the 'Equivalent To' column of doc.go in the encoding Next reads (value v = bit 1<<v, '*' = documented range plus star bit). " +
 		"Pairing: Parse builds SpecSchedule.F from normalised column #i with places[i] = F; Next and its callees test SpecSchedule.F against the time.Time accessor of F; the day rule (a function, method or the code of Next itself), evaluated symbolically for all 16 assignments of (dom matches, dow matches, dom has star, dow has star), is 'both' when a star is present and 'either' otherwise. " +
 		"Search (minimality): for every search loop of Next, from the term of the instant the loop continues with: it continues while the bit is clear, advances by at most one unit (Add/AddDate/Date(field+1)), sets all lower-order fields to their minimum in the same iteration (before the step, for months), and on a carry goes back to the top of the search; the carry test must look at the instant the loop continues with (no further Add/AddDate between test and next iteration) and must still fire when the smallest value of the field does not exist on the wall clock (DST gap at local midnight / 30-minute DST); the search starts exactly at t truncated to the second plus one second, gives up with the zero time only for calendar years beyond start year + 5, converts into SpecSchedule.Location and builds dates only in that location or t's own; every SpecSchedule of the descriptor function carries the location parameter; Parse stores/hands on the time.LoadLocation result of a TZ=/CRON_TZ= prefix or time.Local. " +
 		"Refusal (E7+E2): every error produced in the parser layer (the static call closure of Parse) is returned, tested with a failing return, or parked in a shared error variable (captured variable, *error parameter, named result, error field of a helper's receiver) for which a must-analysis shows that no nil-capable store happens while an error may be pending and no `return ..., nil` is reached while one may be pending; the bit-set builder is only called under start>=min, end<=max, start<=end, step!=0; on every decision-consistent path with a parsed step and a single parsed start value (also when start/end are two results of one helper) the end handed to the builder is the field maximum (doc.go: 'N/... means N-MAX/...'), independently of the step's value; the normaliser succeeds only with a two-sided check of the number of fields; the int->uint conversion of a parsed number is dominated by a non-negativity check; '@every' goes through Every, Every stores a Delay >= 1 s, and ConstantDelaySchedule.Next is t.Add(Delay - t.Nanosecond()). " +
-		"NOT decided: the numerical result of Next as such — that the instant returned is the earliest matching one for every expression, start instant and zone (in particular the day loop's DST midnight fix-ups and repeated hours at fall-back); that Every rounds to whole seconds; the exact bit patterns the builder/range parser produce for ranges, steps ('*/n' losing the star bit) and lists; that the lower bound in the field-count check is the right number; acceptance of oddities such as '*-5' or ','. Shapes the analysis cannot read (table-driven column loops, a bit-set builder inlined into its caller, descriptors dispatched through a map, a deferred closure rewriting the error) give UNDECIDED, never VIOLATION."
+		"NOT decided: the numerical result of Next as such — that the instant returned is the earliest matching one for every expression, start instant and zone (in particular the day loop's DST midnight fix-ups and repeated hours at fall-back); that Every rounds to whole seconds; the exact bit patterns the builder/range parser produce for ranges, steps ('*/n' losing the star bit) and lists; that the lower bound in the field-count check is the right number; acceptance of oddities such as '*-5' or ','. Shapes the analysis cannot read (a bit-set builder inlined into its caller, the normaliser inlined into Parse, a deferred closure rewriting the error, carries a phase helper reports through something else than a boolean result) give UNDECIDED, never VIOLATION."
 	r.Assumptions = append(r.Assumptions,
 		"time.Time accessors, time.Date, Add, AddDate, Truncate, In behave as documented; time zones with a DST gap starting at local midnight (e.g. America/Havana, America/Sao_Paulo before 2019) and with 30-minute DST (Australia/Lord_Howe) exist in the tz database",
 		"field-table values only come from the package-level tables (checked: no other composite literal of that type, no store to the tables outside init)",
@@ -166,24 +167,23 @@ func (st *c04State) loadTables() bool {
 		var uintFields, mapFields int
 		var ut types.Type
 		okShape := true
-		for i := 0; i < stt.NumFields(); i++ {
-			ft := stt.Field(i).Type()
+		c04StructLeaves(stt, "", 0, func(path string, ft types.Type) {
 			if bt, ok := ft.Underlying().(*types.Basic); ok && bt.Info()&types.IsUnsigned != 0 {
 				if ut != nil && !types.Identical(ut, ft) {
 					okShape = false
 				}
 				ut = ft
 				uintFields++
-				continue
+				return
 			}
 			if mt, ok := ft.Underlying().(*types.Map); ok {
 				if kb, ok := mt.Key().Underlying().(*types.Basic); ok && kb.Kind() == types.String {
 					mapFields++
-					continue
+					return
 				}
 			}
 			okShape = false
-		}
+		})
 		if !okShape || uintFields != 2 || mapFields != 1 {
 			continue
 		}
@@ -204,13 +204,13 @@ func (st *c04State) loadTables() bool {
 	st.boundsKey = st.pkgPath + "." + bc.named.Obj().Name()
 	stt := bc.named.Underlying().(*types.Struct)
 	var uf []string
-	for i := 0; i < stt.NumFields(); i++ {
-		if _, isMap := stt.Field(i).Type().Underlying().(*types.Map); isMap {
-			st.namesF = stt.Field(i).Name()
+	c04StructLeaves(stt, "", 0, func(path string, ft types.Type) {
+		if _, isMap := ft.Underlying().(*types.Map); isMap {
+			st.namesF = path
 		} else {
-			uf = append(uf, stt.Field(i).Name())
+			uf = append(uf, path)
 		}
-	}
+	})
 	st.tables = map[string]*c04Bounds{}
 	for _, v := range bc.vars {
 		b, why := c04ReadTable(pkg, v.Name())
@@ -615,42 +615,19 @@ func (st *c04State) resolveParseRoles(results [][]*c04T) {
 	_ = p
 }
 
-func (st *c04State) checkPairing() {
-	r, p := st.r, st.p
-	parse := p.Func("cron", "Parser.Parse")
-	_, _, results := st.parseTerms()
-	st.parseResults = results
-	st.resolveParseRoles(results)
-	// the SpecSchedule literals Parse itself builds (directly or through an inlined constructor helper)
-	var lits []*c04T
-	for _, row := range results {
-		if len(row) == 0 {
-			continue
-		}
-		for _, alt := range row[0].alts() {
-			if alt.Op == "struct" && alt.Name == st.spec {
-				lits = append(lits, alt)
-			}
-		}
-	}
-	st.parseLits = lits
-	if len(lits) == 0 {
-		r.Undecide("Parser.Parse: no SpecSchedule built by Parse (or by a constructor helper it calls) reaches its result: the column/table/field pairing cannot be traced")
-		return
-	}
-	specT := p.Named("cron", "SpecSchedule").Underlying().(*types.Struct)
-	idxOf := map[string]int{}
-	for i := 0; i < specT.NumFields(); i++ {
-		idxOf[specT.Field(i).Name()] = i
-	}
-	posOf := func(t *c04T) token.Pos {
-		if t != nil && t.Src != nil && t.Src.Pos().IsValid() {
-			return t.Src.Pos()
-		}
-		return parse.Pos()
-	}
+// c04PairVerdict is what the pairing rule found for one SpecSchedule field.
+type c04PairVerdict struct {
+	kind    string // "ok" | "zero" | "undecided"
+	col     int
+	table   string
+	at      *c04T
+	problem string
+}
+
+// pairingOf reads, from SpecSchedule values given as terms, the (column, table) each field is parsed from.
+func (st *c04State) pairingOf(lits []*c04T, idxOf map[string]int) map[string]c04PairVerdict {
+	out := map[string]c04PairVerdict{}
 	for _, role := range c04Roles {
-		construct := "cron.Parser.Parse -> SpecSchedule." + role.Field
 		type pair struct {
 			col   int
 			table string
@@ -660,7 +637,7 @@ func (st *c04State) checkPairing() {
 		zero := false
 		for _, lit := range lits {
 			ft := lit.Args[idxOf[role.Field]]
-			if ft.Op == "const" && strings.HasPrefix(ft.Name, "zero:") {
+			if ft.Op == "const" && (strings.HasPrefix(ft.Name, "zero:") || (ft.IsK && ft.K == 0)) {
 				zero = true
 				continue
 			}
@@ -682,6 +659,9 @@ func (st *c04State) checkPairing() {
 							table = n
 						}
 					}
+					if a.Op == "table" && st.tables[a.Name] != nil {
+						table = a.Name
+					}
 				}
 				if col >= 0 && table != "" {
 					nCalls++
@@ -693,27 +673,103 @@ func (st *c04State) checkPairing() {
 			}
 		}
 		switch {
-		case zero && len(pairs) == 0:
-			r.Violation("C04.P2-pairing", construct, p.Pos(parse.Pos()), "Parse never sets SpecSchedule."+role.Field+": the "+role.Field+" column of every expression is ignored (the zero set matches nothing)")
+		case zero && len(pairs) == 0 && problem == "":
+			out[role.Field] = c04PairVerdict{kind: "zero"}
 		case problem != "" || len(pairs) != 1:
 			if problem == "" {
 				problem = "SpecSchedule." + role.Field + " is built from several different column/table pairs"
 			}
-			r.Undecide("Parser.Parse: %s", problem)
+			out[role.Field] = c04PairVerdict{kind: "undecided", problem: problem}
 		default:
 			for pr, t := range pairs {
-				col := "?"
-				if pr.col < len(st.places) {
-					col = st.places[pr.col].ConstName
-				}
-				if col != role.Field {
-					r.Violation("C04.P2-pairing", construct, p.Pos(posOf(t)), fmt.Sprintf("SpecSchedule.%s is parsed from expression column #%d, which the normaliser fills with the %s column", role.Field, pr.col, col))
-					continue
-				}
-				// the table this field is parsed with defines "the table of F"; its contents are checked against doc.go by P1
-				st.bounds[role.Field] = st.tables[pr.table]
-				r.OK("C04.P2-pairing", construct, p.Pos(posOf(t)), fmt.Sprintf("column #%d (%s) parsed with the table cron.%s", pr.col, col, pr.table))
+				out[role.Field] = c04PairVerdict{kind: "ok", col: pr.col, table: pr.table, at: t}
 			}
+		}
+	}
+	return out
+}
+
+func (st *c04State) checkPairing() {
+	r, p := st.r, st.p
+	parse := p.Func("cron", "Parser.Parse")
+	_, _, results := st.parseTerms()
+	st.parseResults = results
+	st.resolveParseRoles(results)
+	specT := p.Named("cron", "SpecSchedule").Underlying().(*types.Struct)
+	idxOf := map[string]int{}
+	for i := 0; i < specT.NumFields(); i++ {
+		idxOf[specT.Field(i).Name()] = i
+	}
+	// (1) the SpecSchedule literals Parse itself builds (directly or through an inlined constructor
+	// helper), read from the terms of its results
+	var lits []*c04T
+	for _, row := range results {
+		if len(row) == 0 {
+			continue
+		}
+		for _, alt := range row[0].alts() {
+			if alt.Op == "struct" && alt.Name == st.spec {
+				lits = append(lits, alt)
+			}
+		}
+	}
+	verdicts := map[string]c04PairVerdict{}
+	allDecided := len(lits) > 0
+	if len(lits) > 0 {
+		verdicts = st.pairingOf(lits, idxOf)
+		for _, v := range verdicts {
+			if v.kind == "undecided" {
+				allDecided = false
+			}
+		}
+	}
+	// (2) otherwise: abstract interpretation of Parse (state kept in an accumulator, a loop over a
+	// literal table of field tables, ...)
+	if !allDecided {
+		outs, why := st.exploreParse()
+		if len(outs) > 0 {
+			var slits []*c04T
+			for _, o := range outs {
+				if len(o.Fields) == specT.NumFields() {
+					slits = append(slits, &c04T{Op: "struct", Name: st.spec, Args: o.Fields})
+				}
+			}
+			if len(slits) > 0 {
+				lits = slits
+				verdicts = st.pairingOf(lits, idxOf)
+			}
+		} else if len(lits) == 0 {
+			r.Undecide("Parser.Parse: no SpecSchedule built by Parse reaches its result in a form that can be traced (%s): the column/table/field pairing is not decided", why)
+			return
+		}
+	}
+	st.parseLits = lits
+	posOf := func(t *c04T) token.Pos {
+		if t != nil && t.Src != nil && t.Src.Pos().IsValid() {
+			return t.Src.Pos()
+		}
+		return parse.Pos()
+	}
+	for _, role := range c04Roles {
+		construct := "cron.Parser.Parse -> SpecSchedule." + role.Field
+		v := verdicts[role.Field]
+		switch v.kind {
+		case "zero":
+			r.Violation("C04.P2-pairing", construct, p.Pos(parse.Pos()), "Parse never sets SpecSchedule."+role.Field+": the "+role.Field+" column of every expression is ignored (the zero set matches nothing)")
+		case "ok":
+			col := "?"
+			if v.col < len(st.places) {
+				col = st.places[v.col].ConstName
+			}
+			if col != role.Field {
+				r.Violation("C04.P2-pairing", construct, p.Pos(posOf(v.at)), fmt.Sprintf("SpecSchedule.%s is parsed from expression column #%d, which the normaliser fills with the %s column", role.Field, v.col, col))
+				continue
+			}
+			// the table this field is parsed with defines "the table of F"; its contents are checked against doc.go by P1
+			st.bounds[role.Field] = st.tables[v.table]
+			r.OK("C04.P2-pairing", construct, p.Pos(posOf(v.at)), fmt.Sprintf("column #%d (%s) parsed with the table cron.%s", v.col, col, v.table))
+		default:
+			r.Undecide("Parser.Parse: %s", v.problem)
 		}
 	}
 }
@@ -758,20 +814,34 @@ func (st *c04State) evalGlobals() map[*ssa.Global]any {
 	g := map[*ssa.Global]any{}
 	sp := st.p.SSA.Package(st.p.Pkg("cron").Types)
 	stt := st.boundsT.Underlying().(*types.Struct)
+	var build func(stt *types.Struct, prefix string, b *c04Bounds) *c04Struct
+	build = func(stt *types.Struct, prefix string, b *c04Bounds) *c04Struct {
+		sv := &c04Struct{}
+		for i := 0; i < stt.NumFields(); i++ {
+			fld := stt.Field(i)
+			path := prefix + fld.Name()
+			switch {
+			case path == st.namesF:
+				sv.F = append(sv.F, c04Poison{"names map"})
+			default:
+				if inner, ok := fld.Type().Underlying().(*types.Struct); ok {
+					in := build(inner, path+".", b)
+					in.Type = namedKey(fld.Type())
+					sv.F = append(sv.F, in)
+				} else {
+					sv.F = append(sv.F, c04MkInt(fld.Type(), b.Fields[path]))
+				}
+			}
+		}
+		return sv
+	}
 	for name, b := range st.tables {
 		gv, ok := sp.Members[name].(*ssa.Global)
 		if !ok {
 			continue
 		}
-		sv := &c04Struct{}
-		for i := 0; i < stt.NumFields(); i++ {
-			fn := stt.Field(i).Name()
-			if fn == st.namesF {
-				sv.F = append(sv.F, c04Poison{"names map"})
-			} else {
-				sv.F = append(sv.F, c04MkInt(stt.Field(i).Type(), b.Fields[fn]))
-			}
-		}
+		sv := build(stt, "", b)
+		sv.Type = st.boundsKey
 		g[gv] = sv
 	}
 	return g
@@ -865,7 +935,7 @@ func (st *c04State) checkDescriptors() {
 				r.Undecide("%s does not take exactly one string and one *time.Location", FuncName(p, pd))
 				return
 			}
-			ev := &c04Eval{Globals: globals, InModule: p.InModule}
+			ev := &c04Eval{Globals: globals, GlobalCells: st.globalCells(), InModule: c04InMod(p)}
 			res, err := ev.Run(pd, args)
 			if err != nil {
 				r.Undecide("%s(%q) does not fold to a constant schedule: %v", FuncName(p, pd), name, err)
@@ -925,7 +995,6 @@ func (st *c04State) checkDescriptors() {
 // / DowOptional) with the default of the Second / Dow field, prepended resp. appended.
 func (st *c04State) checkOptional() {
 	r, p := st.r, st.p
-	rule := "C04.P2-optional"
 	nf := st.normaliser
 	if nf == nil || st.normaliserFieldsArg < 0 || st.normaliserFieldsArg >= len(nf.Params) {
 		r.Undecide("Parser.Parse: the function that expands the raw columns (takes the result of strings.Fields, returns []string) was not found: the filling of omitted optional columns cannot be checked")
@@ -950,7 +1019,68 @@ func (st *c04State) checkOptional() {
 		}
 		return -1
 	}
-	fieldsPar := nf.Params[st.normaliserFieldsArg]
+	// the normaliser and the helpers it hands the columns to, each with the parameter holding the columns
+	type scope struct {
+		fn  *ssa.Function
+		par *ssa.Parameter
+	}
+	scopes := []scope{{nf, nf.Params[st.normaliserFieldsArg]}}
+	derives := func(par *ssa.Parameter) func(ssa.Value) bool {
+		return func(v ssa.Value) bool {
+			return c04ThroughPhis(v, func(x ssa.Value) bool {
+				if x == ssa.Value(par) {
+					return true
+				}
+				if sl, ok := x.(*ssa.Slice); ok && sl.X == ssa.Value(par) {
+					return true
+				}
+				return false
+			})
+		}
+	}
+	for i := 0; i < len(scopes) && i < 16; i++ {
+		sc := scopes[i]
+		from := derives(sc.par)
+		allInstrs(sc.fn, func(in ssa.Instruction) {
+			c, ok := in.(*ssa.Call)
+			if !ok {
+				return
+			}
+			g := staticCallee(c)
+			if g == nil || !p.InModule(g) || len(g.Blocks) == 0 {
+				return
+			}
+			for ai, a := range c.Call.Args {
+				if from(a) && ai < len(g.Params) {
+					dup := false
+					for _, o := range scopes {
+						if o.fn == g {
+							dup = true
+						}
+					}
+					if !dup {
+						scopes = append(scopes, scope{g, g.Params[ai]})
+					}
+				}
+			}
+		})
+	}
+	seen := map[string]bool{}
+	for _, sc := range scopes {
+		st.scanOptional(sc.fn, sc.par, optVal, twin, idxOf, seen)
+	}
+	for _, n := range []string{"SecondOptional", "DowOptional"} {
+		if !seen[n] {
+			r.Undecide("%s: no defaults[const] load under a test of %s found", FuncName(p, nf), n)
+		}
+	}
+}
+
+// scanOptional looks, in function nf whose parameter fieldsPar holds the given
+// columns, for the filling of an omitted optional column.
+func (st *c04State) scanOptional(nf *ssa.Function, fieldsPar *ssa.Parameter, optVal map[string]uint64, twin map[string]string, idxOf func(string) int, seen map[string]bool) {
+	r, p := st.r, st.p
+	rule := "C04.P2-optional"
 	fromFields := func(v ssa.Value) bool {
 		return c04ThroughPhis(v, func(x ssa.Value) bool {
 			if x == ssa.Value(fieldsPar) {
@@ -962,7 +1092,6 @@ func (st *c04State) checkOptional() {
 			return false
 		})
 	}
-	seen := map[string]bool{}
 	allInstrs(nf, func(in ssa.Instruction) {
 		ld, ok := in.(*ssa.UnOp)
 		if !ok || ld.Op != token.MUL {
@@ -1021,24 +1150,128 @@ func (st *c04State) checkOptional() {
 			r.Violation(rule, construct, p.Pos(instrPos(ld)), fmt.Sprintf("an omitted %s column is filled with defaults[%d] = %q, but the default of the %s field is %q: a parser with %s reads e.g. a missing day-of-week as %q instead of %q", twin[opt], k, st.defs[k].Str, twin[opt], st.defs[ti].Str, opt, st.defs[k].Str, st.defs[ti].Str))
 			return
 		}
-		// where does it go? find the append fed by this load
+		// where does it go? find the call that joins the default and the given columns:
+		// append(a, b...), slices.Concat(a, b, ...), slices.Insert(s, 0 | len(s), v...)
+		var fromDefault func(v ssa.Value, depth int) bool
+		fromDefault = func(v ssa.Value, depth int) bool {
+			if v == ssa.Value(ld) {
+				return true
+			}
+			if depth > 3 {
+				return false
+			}
+			switch x := v.(type) {
+			case *ssa.Slice:
+				return fromDefault(x.X, depth+1)
+			case *ssa.Alloc:
+				for _, ref := range c04RealRefs(x) {
+					if ia, ok := ref.(*ssa.IndexAddr); ok {
+						for _, r2 := range c04RealRefs(ia) {
+							if st2, ok := r2.(*ssa.Store); ok && st2.Addr == ssa.Value(ia) && fromDefault(st2.Val, depth+1) {
+								return true
+							}
+						}
+					}
+				}
+			case *ssa.Phi:
+				for _, e := range x.Edges {
+					if fromDefault(e, depth+1) {
+						return true
+					}
+				}
+			}
+			return false
+		}
+		// elements of a variadic argument (slice of a freshly built array), in index order
+		variadicElems := func(v ssa.Value) []ssa.Value {
+			sl, ok := v.(*ssa.Slice)
+			if !ok {
+				return nil
+			}
+			arr, ok := sl.X.(*ssa.Alloc)
+			if !ok {
+				return nil
+			}
+			elems := map[int64]ssa.Value{}
+			max := int64(-1)
+			for _, ref := range c04RealRefs(arr) {
+				if ia, ok := ref.(*ssa.IndexAddr); ok {
+					if k, ok := c04ConstInt(ia.Index); ok {
+						for _, r2 := range c04RealRefs(ia) {
+							if st2, ok := r2.(*ssa.Store); ok && st2.Addr == ssa.Value(ia) {
+								elems[k] = st2.Val
+								if k > max {
+									max = k
+								}
+							}
+						}
+					}
+				}
+			}
+			var out []ssa.Value
+			for i := int64(0); i <= max; i++ {
+				out = append(out, elems[i])
+			}
+			return out
+		}
+		var order []ssa.Value // the joined pieces, first to last
 		var app *ssa.Call
 		for _, b := range nf.Blocks {
-			if !ld.Block().Dominates(b) && b != ld.Block() {
+			if b != ld.Block() && !ld.Block().Dominates(b) {
 				continue
 			}
 			for _, i2 := range b.Instrs {
-				if c, ok := i2.(*ssa.Call); ok && builtinName(c) == "append" && len(c.Call.Args) == 2 && c.Block() == ld.Block() {
-					app = c
+				c, ok := i2.(*ssa.Call)
+				if !ok {
+					continue
+				}
+				var pieces []ssa.Value
+				switch {
+				case builtinName(c) == "append" && len(c.Call.Args) == 2:
+					pieces = []ssa.Value{c.Call.Args[0], c.Call.Args[1]}
+				case callIs(c, "slices", "", "Concat") && len(c.Call.Args) == 1:
+					pieces = variadicElems(c.Call.Args[0])
+				case callIs(c, "slices", "", "Insert") && len(c.Call.Args) == 3:
+					vals := c.Call.Args[2]
+					if k, ok := c04ConstInt(c.Call.Args[1]); ok && k == 0 {
+						pieces = []ssa.Value{vals, c.Call.Args[0]}
+					} else if lc, ok := c.Call.Args[1].(*ssa.Call); ok && builtinName(lc) == "len" && lc.Call.Args[0] == c.Call.Args[0] {
+						pieces = []ssa.Value{c.Call.Args[0], vals}
+					}
+				}
+				hasD, hasF := false, false
+				for _, pc := range pieces {
+					if pc == nil {
+						continue
+					}
+					hasD = hasD || fromDefault(pc, 0)
+					hasF = hasF || fromFields(pc)
+				}
+				if hasD && hasF {
+					app, order = c, pieces
 				}
 			}
 		}
 		if app == nil {
-			r.Undecide("%s: the append that inserts the default was not found", construct)
+			r.Undecide("%s: the call that inserts the default among the given columns (append, slices.Concat, slices.Insert) was not found", construct)
 			return
 		}
-		appended := fromFields(app.Call.Args[0])
-		prepended := fromFields(app.Call.Args[1])
+		appended, prepended := false, false
+		seenFields := false
+		for _, pc := range order {
+			if pc == nil {
+				continue
+			}
+			if fromFields(pc) {
+				seenFields = true
+			} else if fromDefault(pc, 0) {
+				if seenFields {
+					appended = true
+				} else {
+					prepended = true
+				}
+			}
+		}
 		wantAppend := ti == len(st.places)-1
 		wantPrepend := ti == 0
 		switch {
@@ -1050,11 +1283,6 @@ func (st *c04State) checkOptional() {
 			r.Violation(rule, construct, p.Pos(instrPos(app)), fmt.Sprintf("the default of the omitted %s column is inserted at the wrong end of the expression: every given column shifts into the neighbouring field", twin[opt]))
 		}
 	})
-	for _, n := range []string{"SecondOptional", "DowOptional"} {
-		if !seen[n] {
-			r.Undecide("%s: no defaults[const] load under a test of %s found", FuncName(p, nf), n)
-		}
-	}
 }
 
 // c04Sym is an opaque symbolic argument for the constant evaluator.
@@ -1107,7 +1335,7 @@ func (st *c04State) checkLocation() {
 			for _, name := range d.Names {
 				construct := "cron descriptor " + name + " Location"
 				args, _ := c04DescArgs(pd, name, sentinel)
-				ev := &c04Eval{Globals: globals, InModule: p.InModule}
+				ev := &c04Eval{Globals: globals, GlobalCells: st.globalCells(), InModule: c04InMod(p)}
 				res, err := ev.Run(pd, args)
 				if err != nil {
 					r.Undecide("%s(%q) does not fold: %v", FuncName(p, pd), name, err)
@@ -1156,9 +1384,9 @@ func (st *c04State) checkLocation() {
 		bad, unk := "", ""
 		for _, alt := range lt.alts() {
 			switch {
-			case alt.Op == "global" && alt.Name == "time.Local":
+			case (alt.Op == "global" || alt.Op == "leaf") && alt.Name == "time.Local":
 				local = true
-			case alt.Op == "global" && strings.HasPrefix(alt.Name, "time."):
+			case (alt.Op == "global" || alt.Op == "leaf") && strings.HasPrefix(alt.Name, "time."):
 				bad = alt.Name
 			case alt.Op == "extract" && alt.IsK && alt.K == 0 && len(alt.Args) == 1 && alt.Args[0].Op == "ext:time.LoadLocation":
 				parsed = true
